@@ -155,12 +155,15 @@ func validOptionalPort(port string) bool {
 	return true
 }
 
+// IsUnsafeMethod reports whether the method is not registered as safe in the
+// IANA HTTP Method Registry; unknown methods are unsafe (RFC 9111 §4.4).
 func IsUnsafeMethod(method string) bool {
 	switch method {
-	case http.MethodPost, http.MethodPut, http.MethodDelete, http.MethodPatch:
-		return true
-	default:
+	case http.MethodGet, http.MethodHead, http.MethodOptions, http.MethodTrace,
+		"PROPFIND", "REPORT", "SEARCH", "PRI", "QUERY":
 		return false
+	default:
+		return true
 	}
 }
 
